@@ -222,3 +222,90 @@ func init() {
 		}
 	}
 }
+
+// runSeeded re-applies every filed seeded change of a property (verif/seeded/<prop>-*/patch.diff, written by
+// sub-agents that saw only the property text and confirmed against the real code: the patch compiles, passes the
+// repository's suite, and makes a demonstration of the property fail) as an overlay of the current source and expects
+// the property's check to report it. A patch that no longer applies to the current source is reported as skipped; a
+// seed whose meta.json says a later fix made it harmless ("neutralised") is expected to stay unreported.
+func runSeeded(prop, repo, verif string) map[string]any {
+	exe, err := os.Executable()
+	if err != nil {
+		return map[string]any{"error": err.Error()}
+	}
+	dirs, _ := filepath.Glob(filepath.Join(verif, "seeded", prop+"-*"))
+	sort.Strings(dirs)
+	var details []map[string]any
+	reported, skipped, missed, neutral := 0, 0, 0, 0
+	fileRe := regexp.MustCompile(`(?m)^\+\+\+ b/(\S+)`)
+	for _, d := range dirs {
+		label := filepath.Base(d)
+		patch, err := os.ReadFile(filepath.Join(d, "patch.diff"))
+		if err != nil {
+			continue
+		}
+		det := map[string]any{"seed": label}
+		neutralised := false
+		if mb, err := os.ReadFile(filepath.Join(d, "meta.json")); err == nil && bytes.Contains(mb, []byte(`"neutralised"`)) {
+			neutralised = true
+		}
+		tmp, err := os.MkdirTemp("", "kvlint-seed-*")
+		if err != nil {
+			continue
+		}
+		args := []string{"check", prop, "--tier", "quick", "--no-write", "--repo", repo, "--verif", verif}
+		ok := true
+		for _, m := range fileRe.FindAllStringSubmatch(string(patch), -1) {
+			rel := m[1]
+			src, err := os.ReadFile(filepath.Join(repo, rel))
+			if err != nil {
+				ok = false
+				break
+			}
+			dst := filepath.Join(tmp, rel)
+			os.MkdirAll(filepath.Dir(dst), 0o755)
+			os.WriteFile(dst, src, 0o644)
+			args = append(args, "--overlay", rel+"="+dst)
+		}
+		if ok {
+			pc := exec.Command("patch", "-p1", "-s", "-f", "-d", tmp, "-i", filepath.Join(d, "patch.diff"))
+			if out, err := pc.CombinedOutput(); err != nil {
+				ok = false
+				det["note"] = "patch no longer applies to the current source: " + firstLines(string(out), 2)
+			}
+		}
+		if !ok {
+			skipped++
+			det["outcome"] = "skipped"
+			details = append(details, det)
+			os.RemoveAll(tmp)
+			continue
+		}
+		out, _ := exec.Command(exe, args...).CombinedOutput()
+		os.RemoveAll(tmp)
+		var seen []string
+		for _, mm := range violRe.FindAllStringSubmatch(string(out), -1) {
+			if mm[2] == "violation" || mm[2] == "undecided" {
+				seen = append(seen, mm[1]+":"+mm[3])
+			}
+		}
+		sort.Strings(seen)
+		switch {
+		case strings.Contains(string(out), "construct=load") || strings.Contains(string(out), "construct=analysis-panic"):
+			skipped++
+			det["outcome"], det["note"] = "skipped", "patched source does not type-check any more"
+		case len(seen) > 0:
+			reported++
+			det["outcome"], det["reports"] = "reported", seen
+		case neutralised:
+			neutral++
+			det["outcome"], det["note"] = "harmless", "a later fix: commit made this change harmless (its demonstration passes with the patch); not expected to be reported"
+		default:
+			missed++
+			det["outcome"] = "MISSED"
+		}
+		details = append(details, det)
+	}
+	return map[string]any{"seeded_total": len(dirs), "seeded_reported": reported, "seeded_missed": missed, "seeded_skipped": skipped, "seeded_harmless": neutral, "details": details,
+		"meaning": "seeded changes written by sub-agents from the property text alone and confirmed against the real code; re-applied as overlays of the current source. Validation of the analyser, not property coverage"}
+}
